@@ -15,6 +15,11 @@ Enumerates (exhaustively, smallest first)
   * the edge of the accepted 2.x language: operator x kind of operand x group shape x statement form (whether or
     not an expansion rule supports the combination) and the bare loop exits, in every nesting context - each program
     is either rejected by the loader or compiled into a closed flow,
+  * Colang 1.0 flow declarations (`priority N` / `meta` blocks) at every statement position of every block of the
+    1.0 control grammar up to a node bound (then / else blocks, while bodies, when branches, top of the flow) under
+    every flow header - and every 1.0 flow of every family / shipped file as LOADED by the runtime
+    (`RuntimeV1_0._load_flow_config`, a whole `RuntimeV1_0(config).flow_configs`, the flow a `start_flow` event
+    defines; vf/props/c12_v1load.py): offsets inside the loaded flow, only steps left in it,
 and model-checks each compiled flow: explicit-state exploration of its control-flow graph
 (vf/props/c12_cfg.py).  The abstraction is bound to the implementation by running the
 generated 2.x programs on the real interpreter with a logging wrapper around the
@@ -40,6 +45,7 @@ from vf.props import c12_cfg as G
 from vf.props import c12_dyn as D
 from vf.props import c12_files as F
 from vf.props import c12_gen as gen
+from vf.props import c12_v1load as L
 
 PROP = "C12"
 HELPER_FLOWS = {"f", "g", "h", "p"}
@@ -49,12 +55,12 @@ TIERS = {
     "quick": dict(
         v2_bound=5, v2_dyn_all=5, v2_dyn_stride={}, v1_bound=6, kmax=3,
         rich_dyn=True, pairs=False, files_stride=1, depth=4, max_steps=120, budget_s=70,
-        goto_len=5, whenor_body=2, paths_stride={}, edge_kmax=2,
+        goto_len=5, whenor_body=2, paths_stride={}, edge_kmax=2, v1meta_bound=4, v1meta_full=3,
     ),
     "thorough": dict(
         v2_bound=7, v2_dyn_all=5, v2_dyn_stride={6: 16, 7: 256}, v1_bound=7, kmax=4,
         rich_dyn=True, pairs=True, files_stride=1, depth=5, max_steps=400, budget_s=17 * 60,
-        goto_len=6, whenor_body=3, paths_stride={7: 8}, edge_kmax=3,
+        goto_len=6, whenor_body=3, paths_stride={7: 8}, edge_kmax=3, v1meta_bound=5, v1meta_full=4,
     ),
 }
 CHUNK = 400
@@ -328,7 +334,45 @@ def do_v2_program(acc, source, origin, size, dyn, paths=True):
     return True
 
 
+V1_PATH_SUFFIX = {None: "", "loaded": "@loaded", "dynamic": "@start_flow-event"}
+
+
+def _v1_replay(origin, source, file_rel, flow_id, detail, size, path=None, **more):
+    r = {"kind": "v1", "origin": origin, "source": source, "file": file_rel, "flow": flow_id, "detail": detail,
+         "size": size, "path": path}
+    r.update(more)
+    return r
+
+
+def check_v1_loaded(acc, fc, origin, source, size, file_rel, path, **more):
+    """a flow as the runtime holds it (FlowConfig made by the loader), explored as it is: offsets, steps, real slide"""
+    els = fc.elements
+    probs, n, edges, types = G.v1_check(fc.id, els, raw=True, steps=True)
+    acc.add("states", n)
+    acc.add("transitions", edges)
+    acc.add("v1_elements", n)
+    acc.add("v1_loaded_flows_explored_as_loaded")
+    for p in probs:
+        acc.violation(p.sig + V1_PATH_SUFFIX[path], f"[{origin}] {p.what}",
+                      _v1_replay(origin, source, file_rel, fc.id, p.detail, size, path, **more))
+    if not [p for p in probs if not p.sig.startswith("v1:non-primitive-left")]:
+        ok, cyc, bad = D.v1_bind(fc.id, els, flow_config=fc)
+        acc.add("traces_validated_against_impl", ok)
+        acc.add("v1_slide_calls_validated", ok)
+        acc.add("v1_slide_calls_validated_on_loaded_flow_configs", ok)
+        acc.add("v1_slide_cycles_skipped", cyc)
+        for b in bad:
+            acc.violation(
+                "v1:impl-slide-differs-from-model" + V1_PATH_SUFFIX[path],
+                f"[{origin}] v1 flow `{fc.id}` (as loaded): sliding.slide(head={b['head']}, expressions={b['value']}) "
+                f"returned {b['impl']!r}, model {b['model']!r}",
+                _v1_replay(origin, source, file_rel, fc.id, b, size, path, **more))
+    return probs, types
+
+
 def do_v1_flows(acc, flows, origin, source, size, file_rel=None):
+    """returns {flow id: element list of the flow as loaded by the host loader}"""
+    loaded_by_id = {}
     for f in flows:
         els = f["elements"]
         probs, n, edges, types = G.v1_check(f["id"], els)
@@ -363,9 +407,30 @@ def do_v1_flows(acc, flows, origin, source, size, file_rel=None):
                     {"kind": "v1", "origin": origin, "source": source, "file": file_rel, "flow": f["id"],
                      "detail": b, "size": size},
                 )
+        # ---- the flow as LOADED by the runtime (what the interpreter walks over)
+        modelled = G.v1_runtime_elements(els)
+        try:
+            fc = L.load_host(f)
+        except Exception as ex:   # the loader of the runtime refuses the flow: outside the property
+            acc.add("v1_flows_rejected_by_runtime_loader")
+            acc.reject.setdefault(f"v1 runtime loader {type(ex).__name__}: {str(ex)[:70]}", source or file_rel)
+            continue
+        acc.add("v1_flows_loaded_by_runtime_loader")
+        loaded_by_id[f["id"]] = fc.elements
+        if fc.elements == modelled:
+            # the graph explored above is the graph of the loaded flow; what is left to ask of the loaded flow
+            # is that only steps remain in it
+            acc.add("v1_flows_loaded_same_form_as_explored")
+            for p in G.v1_step_problems(f["id"], fc.elements):
+                acc.violation(p.sig, f"[{origin}] {p.what}",
+                              _v1_replay(origin, source, file_rel, f["id"], p.detail, size, None))
+        else:
+            acc.add("v1_flows_loaded_form_differs_explored_separately")
+            check_v1_loaded(acc, fc, origin + ":as-loaded", source, size, file_rel, "loaded", loader="host")
+    return loaded_by_id
 
 
-def do_v1_program(acc, source, origin, size):
+def do_v1_program(acc, source, origin, size, dynamic_body=None, full_runtime=False):
     acc.add("v1_programs_generated")
     try:
         r = parse_colang_file("t.co", source, include_source_mapping=False, version="1.0")
@@ -373,9 +438,46 @@ def do_v1_program(acc, source, origin, size):
     except Exception as ex:
         acc.add("v1_programs_rejected_by_loader")
         acc.reject.setdefault(f"v1 {type(ex).__name__}: {str(ex)[:70]}", source)
-        return
+        return False
     acc.add("v1_programs_checked")
-    do_v1_flows(acc, flows, origin, source, size)
+    loaded = do_v1_flows(acc, flows, origin, source, size)
+    if full_runtime:
+        # (b) the whole runtime built on the configuration: its flow_configs must hold what the host loader made
+        try:
+            cfgs = L.load_runtime(source)
+        except Exception as ex:
+            acc.add("v1_programs_rejected_by_runtime_constructor")
+            acc.reject.setdefault(f"v1 RuntimeV1_0(config) {type(ex).__name__}: {str(ex)[:70]}", source)
+            cfgs = None
+        if cfgs is not None:
+            acc.add("v1_runtimes_built")
+            for f in flows:
+                fc = cfgs.get(f["id"])
+                if fc is None or f["id"] not in loaded:
+                    acc.add("v1_runtime_flows_not_comparable")
+                    continue
+                if L.strip(fc.elements) == L.strip(loaded[f["id"]]):
+                    acc.add("v1_runtime_flow_configs_same_as_host_loader")
+                else:
+                    acc.add("v1_runtime_flow_configs_differ_explored_separately")
+                    check_v1_loaded(acc, fc, origin + ":runtime.flow_configs", source, size, None, "loaded",
+                                    loader="runtime")
+    if dynamic_body is not None and L.dynamic_available():
+        # (c) the same flow defined by a `start_flow` event of a history
+        for f in flows[:1]:
+            try:
+                fc = L.load_dynamic(f["id"], dynamic_body)
+            except Exception as ex:   # refused: outside the property
+                acc.add("v1_dynamic_flows_rejected_by_loader")
+                acc.reject.setdefault(f"v1 start_flow event {type(ex).__name__}: {str(ex)[:70]}", dynamic_body)
+                continue
+            acc.add("v1_dynamic_flows_loaded")
+            _, types = check_v1_loaded(acc, fc, origin + ":start_flow-event", source, size, None, "dynamic",
+                                       body=dynamic_body)
+            if not any(x["kind"] == "v1-start_flow-event" for x in acc.samples) and len(fc.elements) > 4:
+                acc.samples.append({"kind": "v1-start_flow-event", "origin": origin, "flow_body": dynamic_body,
+                                    "elements": len(fc.elements), "element_types": types})
+    return True
 
 
 def do_file(acc, rel):
@@ -516,6 +618,22 @@ def work(task):
                 acc.add("v1_goto_programs")
                 acc.add("v1_goto_statements", gen.n_gotos(seqs[i]))
                 do_v1_program(acc, gen.render_goto_v1(seqs[i], ctx), f"v1goto:{ctx}:{'.'.join(seqs[i])}", length)
+    elif kind == "v1meta":
+        _, n, lo, hi, full = task
+        structs = gen.v1_meta_structures(n)
+        for i in range(lo, hi):
+            for header, _ in gen.V1M_HEADERS:
+                for phase in range(len(gen.V1M_PRIO_FORMS)):
+                    src, body = gen.render_v1_meta(structs[i], header, phase)
+                    acc.add("v1_meta_programs")
+                    ok = do_v1_program(acc, src, f"v1meta:n={n}:#{i}:{header}:{phase}", n,
+                                       dynamic_body=body if header == "flow" else None,
+                                       full_runtime=full and phase == 0)
+                    if ok and not any(x["kind"] == "v1-meta-program" for x in acc.samples) and n >= 3:
+                        acc.samples.append({"kind": "v1-meta-program", "origin": f"v1meta:n={n}:#{i}:{header}:{phase}",
+                                            "program": src, "paths": ["parser output", "host loader"]
+                                            + (["runtime.flow_configs"] if full and phase == 0 else [])
+                                            + (["start_flow event"] if header == "flow" else [])})
     elif kind == "whenor":
         _, max_body, lo, hi, dynp = task
         fam = whenor(max_body)
@@ -556,6 +674,10 @@ def tasks(tier):
     # the curated programs are few: longer histories (two loop iterations)
     out = [("v2cur", {"depth": max(6, t["depth"]), "max_steps": 1500}), ("v1rich",)]
     out += [("whenfam", "1.0", 3 if tier == "quick" else 4, 3), ("whenfam", "2.x", 3 if tier == "quick" else 4, 3 if tier == "quick" else 2)]
+    for n in range(1, t["v1meta_bound"] + 1):
+        full = n <= t["v1meta_full"]
+        for lo, hi in _chunks(len(gen.v1_meta_structures(n)), 8 if full else 64):
+            out.append(("v1meta", n, lo, hi, full))
     me = len(edge(t["edge_kmax"]))
     for ctx in gen.V2_CONTEXTS:
         for lo, hi in _chunks(me, 64):
@@ -593,6 +715,7 @@ def run(rep, tier):
     t = TIERS[tier]
     D.install()
     runtime_host()     # built once here, the workers inherit it
+    L.host()
     tk, nfiles = tasks(tier)
     planned = {}
     for x in tk:
@@ -603,7 +726,7 @@ def run(rep, tier):
         # (the small families at the front - curated, 1.0 rich, when families, edge family - stay there, so that a
         # time cap under load drops the same kind of chunk for every seed)
         nh = 0
-        while nh < len(tk) and tk[nh][0] in ("v2cur", "v1rich", "whenfam", "v2edge"):
+        while nh < len(tk) and tk[nh][0] in ("v2cur", "v1rich", "whenfam", "v1meta", "v2edge"):
             nh += 1
         head, tail = tk[:nh], tk[nh:]
         random.Random(rep.seed).shuffle(tail)
@@ -619,7 +742,7 @@ def run(rep, tier):
     for res in par.pmap(work, tk, chunksize=1, deadline=deadline):
         done += 1
         k = res["task"][0]
-        key = k if k not in ("v2ctl", "v1ctl", "v1goto") else f"{k}:n={res['task'][1]}"
+        key = k if k not in ("v2ctl", "v1ctl", "v1goto", "v1meta") else f"{k}:n={res['task'][1]}"
         done_by_kind[key] = done_by_kind.get(key, 0) + 1
         cpu_by_kind[key] = cpu_by_kind.get(key, 0.0) + res["cpu"]
         c = dict(res["counts"])
@@ -638,7 +761,7 @@ def run(rep, tier):
                 rep.sample(smp, limit=12)
     planned_by_kind = {}
     for x in tk:
-        key = x[0] if x[0] not in ("v2ctl", "v1ctl", "v1goto") else f"{x[0]}:n={x[1]}"
+        key = x[0] if x[0] not in ("v2ctl", "v1ctl", "v1goto", "v1meta") else f"{x[0]}:n={x[1]}"
         planned_by_kind[key] = planned_by_kind.get(key, 0) + 1
     complete = done == len(tk)
     rep.set("worker_cpu_seconds_by_family", {k: round(v, 1) for k, v in sorted(cpu_by_kind.items())})
@@ -667,7 +790,7 @@ def run(rep, tier):
     })
     rep.set("bounds", {k: t[k] for k in ("v2_bound", "v1_bound", "kmax", "v2_dyn_all", "v2_dyn_stride",
                                           "depth", "max_steps", "pairs", "goto_len", "whenor_body", "paths_stride",
-                                          "edge_kmax")})
+                                          "edge_kmax", "v1meta_bound", "v1meta_full")})
     rep.set("loader_rejections", {k: (v if len(str(v)) < 300 else str(v)[:300]) for k, v in
                                   sorted(rejects.items())[:40]})
     rep.set("violation_occurrences_by_signature", per_sig)
@@ -717,7 +840,23 @@ def run(rep, tier):
         "where an event moves no head; random.choice and `$c` outcomes enumerated, <=3 `$c` evaluations per "
         "step) must be an abstract edge and reach an abstract state; for 1.0 the real sliding.slide is called "
         "from every head with all expressions True / all False",
-        "1.0 flows are checked as the runtime sees them (a leading meta element removed)",
+        "1.0 flows are checked as the runtime sees them: the parser's output with a leading meta element removed (the model "
+        "of the loader), and EVERY 1.0 flow of every family and every shipped file is also handed to the loader of the "
+        "runtime itself (RuntimeV1_0._load_flow_config of one host runtime): when FlowConfig.elements equals the modelled "
+        "list the explored graph is the graph of the loaded flow (counted: v1_flows_loaded_same_form_as_explored), any other "
+        "list is explored as it is - offsets, steps and the real sliding.slide on the loaded FlowConfig (signatures "
+        "`...@loaded`)",
+        f"1.0 declarations: all blocks of <= {t['v1meta_bound']} nodes of the 1.0 control grammar with a third leaf, a "
+        "flow-level declaration statement (`priority N` / a `meta` block), that contain at least one declaration - at the "
+        "top of the flow and in then / else blocks, while bodies, when branches - x flow header {define flow | define "
+        "subflow | define extension flow} x which spelling comes first; checked as parsed, as loaded by the host loader, "
+        f"for <= {t['v1meta_full']} nodes as held by a whole runtime built on the configuration (RuntimeV1_0(RailsConfig)."
+        "flow_configs; LLMRails itself is not constructed - it starts a download thread), and (header `define flow`) as the "
+        "flow a `start_flow` event with that body defines (RuntimeV1_0._get_flow_configs, signatures `...@start_flow-event`)",
+        "a loaded 1.0 flow consists of steps only: elements slide has a rule for, branch, flow, run_action, event patterns; "
+        "an element {_type: meta, meta: {...}} is a flow-level declaration (the loader's own contract is to move it to the "
+        "FlowConfig), not a step (v1:non-primitive-left:meta). It is judged on the flow as loaded, never on the parser's "
+        "output, so a loader that takes nested declarations out (and keeps the offsets right) passes",
         "programs the loader rejects are outside the property and only counted",
     ]
     # smallest program first per signature
@@ -798,24 +937,57 @@ def replay(rp):
                     ok = (m[1], m[2]) in cfgs[fid].edges if fid in cfgs else None
                     print(f"   {fid}: {m[1]} -> {m[2]} ({m[5]}) in model: {ok}")
     elif kind == "v1":
+        L.host()
+        path = rp.get("path")
         if rp.get("source") is not None:
             print("program:\n" + rp["source"])
             flows = parse_colang_file("t.co", rp["source"], include_source_mapping=False, version="1.0")["flows"]
         else:
             print("file:", rp["file"])
             flows = F.load_v1_file(rp["file"])
+
+        def show(els):
+            for i, el in enumerate(els):
+                print(f"  {i:3d} {json.dumps({k: v for k, v in el.items() if k != '_source_mapping'})}")
+
+        def report(probs, fid, els, fc=None):
+            print("expected: every offset inside the flow, only steps in the loaded flow; observed:")
+            for p in probs:
+                print("  ", p.sig + V1_PATH_SUFFIX[path if fc is not None else None], "-", p.what)
+            if not probs:
+                ok, cyc, bad = D.v1_bind(fid, els, flow_config=fc)
+                print("   static: none; slide binding mismatches:", bad)
+
         for f in flows:
             if f["id"] != rp["flow"]:
                 continue
-            for i, el in enumerate(G.v1_runtime_elements(f["elements"])):
-                print(f"  {i:3d} {json.dumps({k: v for k, v in el.items() if k != '_source_mapping'})}")
-            probs, n, edges, _ = G.v1_check(f["id"], f["elements"])
-            print("expected: no problems; observed:")
-            for p in probs:
-                print("  ", p.sig, "-", p.what)
-            if not probs:
-                ok, cyc, bad = D.v1_bind(f["id"], f["elements"])
-                print("   static: none; slide binding mismatches:", bad)
+            if path == "dynamic":
+                print("flow body carried by a start_flow event:\n" + rp["body"])
+                fc = L.load_dynamic(f["id"], rp["body"])
+                print(f"flow `{fc.id}` as RuntimeV1_0._get_flow_configs hands it to the interpreter:")
+                show(fc.elements)
+                report(G.v1_check(fc.id, fc.elements, raw=True, steps=True)[0], fc.id, fc.elements, fc)
+                continue
+            print("parser output, leading meta element removed (model of the loader):")
+            show(G.v1_runtime_elements(f["elements"]))
+            if path is None and "path" not in rp:
+                probs = G.v1_check(f["id"], f["elements"])[0]
+                report(probs, f["id"], f["elements"])
+                continue
+            if rp.get("loader") == "runtime":
+                fc = L.load_runtime(rp["source"])[f["id"]]
+                print("as held by RuntimeV1_0(RailsConfig.from_content(...)).flow_configs:")
+            else:
+                fc = L.load_host(f)
+                print("as loaded by RuntimeV1_0._load_flow_config:")
+            show(fc.elements)
+            print(f"FlowConfig: priority={fc.priority} is_subflow={fc.is_subflow} is_extension={fc.is_extension}")
+            if path is None:
+                # same form as the modelled list: offsets from the parser output, steps from the loaded flow
+                probs = G.v1_check(f["id"], f["elements"])[0] + G.v1_step_problems(f["id"], fc.elements)
+                report(probs, f["id"], f["elements"])
+            else:
+                report(G.v1_check(fc.id, fc.elements, raw=True, steps=True)[0], fc.id, fc.elements, fc)
     else:
         print("unknown replay kind", kind)
     return 0
